@@ -39,7 +39,9 @@ def one(d):
             env["C15_PREBUILT"] = os.path.join(w, "prebuilt", so)
         t = subprocess.run(["/venv/bin/python", "-m", "pytest", "-q", "-x", "-p", "no:cacheprovider", "tests"], cwd=w, env=env, capture_output=True, text=True)
         dm = subprocess.run(["/venv/bin/python", demo], cwd=w, env=env, capture_output=True, text=True, timeout=600)
-        r = subprocess.run(["/verif/check", prop, "--tier", tier], env=dict(os.environ, PMV_REPO=w, PMV_JOBS="6"), capture_output=True, text=True, cwd="/verif")
+        # a change that only the thorough tier reaches (a memo of 2**20 slots needs a million messages) is re-run with that tier
+        tier_ = "thorough" if meta.get("thorough_tier_only") else tier
+        r = subprocess.run(["/verif/check", prop, "--tier", tier_], env=dict(os.environ, PMV_REPO=w, PMV_JOBS="6" if tier_ == "quick" else "16"), capture_output=True, text=True, cwd="/verif")
         keys = [l.split("key=")[1].split()[0] for l in r.stdout.splitlines() if l.startswith("VIOLATION") and "key=" in l]
         if meta.get("documented_miss"):
             status = ("STILL-MISSED (documented limit, see meta.json)" if r.returncode == 0 else "CAUGHT (was a documented miss)")
